@@ -23,7 +23,7 @@ fn report_text(r: &cooklang::error::SourceReport) -> String {
     s
 }
 
-pub const OPS: [&str; 4] = ["parse", "meta", "validated", "scale"];
+pub const OPS: [&str; 5] = ["parse", "meta", "validated", "scale", "accessors"];
 
 thread_local! {
     /// a read buffer reused for every call of the thread: successive inputs sit at the same address (as they do in a
@@ -77,6 +77,26 @@ fn call_on(parser: &CooklangParser, op: &str, text: &str) -> String {
                 None => format!("none#{rep}"),
             }
         }
+        // the public readers of the standard metadata, called on a parsed recipe: between two parses of a history they must
+        // leave nothing behind either
+        "accessors" => {
+            use cooklang::metadata::CooklangValueExt;
+            let conv = parser.converter();
+            let r = parser.parse(text);
+            let rep = report_text(r.report());
+            match r.output() {
+                Some(o) => {
+                    let m = &o.metadata;
+                    let mut s = format!("{:?}|{:?}|{:?}|{:?}|{:?}|{:?}|{:?}", m.title(), m.tags(), m.author().map(|a| (a.name().map(str::to_string), a.url().map(str::to_string))),
+                                        m.source().map(|a| (a.name().map(str::to_string), a.url().map(str::to_string))), m.time(conv), m.servings(), m.locale());
+                    for (_, v) in m.map.iter() {
+                        s.push_str(&format!(";{:?}|{:?}|{:?}|{:?}", v.as_minutes(conv), v.as_time(conv).map(|t| t.total()), v.as_servings(), v.as_tags()));
+                    }
+                    format!("{s}#{rep}")
+                }
+                None => format!("none#{rep}"),
+            }
+        }
         _ => unreachable!(),
     });
     match r {
@@ -105,7 +125,9 @@ pub fn main(args: &[String]) {
     let inputs = Arc::new(inputs);
 
     // (1) threads sharing &parser, released together
-    let cold: Option<usize> = arg(args, "--cold").and_then(|c| c.parse().ok());
+    // `--cold i,j,..`: the inputs of the cold-start rounds (round r takes the (r mod n)-th)
+    let cold_list: Vec<usize> = arg(args, "--cold").map(|c| c.split(',').filter_map(|x| x.parse().ok()).collect()).unwrap_or_default();
+    let cold: Option<usize> = cold_list.first().copied();
     let barrier = Arc::new(Barrier::new(nthreads));
     let mut handles = Vec::new();
     for t in 0..nthreads {
@@ -171,9 +193,10 @@ pub fn main(args: &[String]) {
     let mut out = vec![json!({"ev": "Reset", "t": 0, "seq": 0, "op": "", "input": 0, "hash": "", "base": ""})];
     // (4) cold starts: a brand-new parser per round, all threads released together on the same input, one call each.
     // Whatever the parser or its converter builds lazily on first use is raced for in every round.
-    if let Some(c) = cold {
+    if cold.is_some() {
         let rounds: usize = arg(args, "--cold-rounds").and_then(|x| x.parse().ok()).unwrap_or(40);
         for round in 0..rounds {
+            let c = cold_list[round % cold_list.len()];
             let fresh = Arc::new(CooklangParser::new(ext_from_bits(ext), converter(conv)));
             let barrier = Arc::new(Barrier::new(nthreads));
             let hs: Vec<_> = (0..nthreads)
